@@ -94,6 +94,8 @@ Broken(e, pre, post) ==
         \cup (IF e.ev = "CanonReset" /\ ~SameNoVc(post.c, com[Top]) THEN {"ResetRestores"} ELSE {})
         \cup (IF e.ev = "CanonResetTo" /\ ~SameNoVc(post.c, com[e.h]) THEN {"ResetRestores"} ELSE {})
         \cup (IF e.ev = "ViewReset" /\ ~SameNoVc(post.v[e.x], vsv[e.x]) THEN {"ResetRestores"} ELSE {})
+        \* (5b) right after a commit the canonical object shows exactly the committed version (no buffer survives it)
+        \cup (IF e.ev \in {"CanonCommit", "CanonCommitTree"} /\ e.err = "" /\ ~SameNoVc(post.c, e.hist) THEN {"CommitExact"} ELSE {})
         \* (6) what an object's trees hold is a function of its own history: two objects with the same
         \*     [chain, work] show the same roots (a view computes what the canonical object would)
         \cup (IF Clash(Objs(post)) THEN {"SameContentSameRoot"} ELSE {})
